@@ -168,3 +168,24 @@ def shard(S, p):
         return
     check_npy(S, p)
     check_text(S, p)
+
+
+def post(total, tier, seed):
+    """Thorough: the damaged-file corpus of one npy file and the text edits again under an AddressSanitizer build."""
+    import os
+    if tier != "thorough" and not os.environ.get("VERIF_SANITIZERS"):
+        return {"sanitizers": {"asan": "not run in quick tier"}}
+    from .. import sanitize
+    rng = rng_for(seed, "c16", "asan")
+    cases = []
+    for k in range(3):
+        shape, descr, data = gen_npy(rng)
+        for cut in range(len(data)):
+            cases.append((SUBS[cut % 3], data[:cut]))
+        for e in range(1, 17):
+            cases.append((SUBS[e % 3], data + bytes(rng.randrange(256) for _ in range(e))))
+    shape = [2, 3]
+    toks = ["1", "2.5", "3", "4", "5", "6"]
+    for kk, (desc, d) in enumerate(text_edits(rng, shape, toks)):
+        cases.append((SUBS[kk % 3], d))
+    return {"sanitizers": {"asan": sanitize.asan_pass(total, cases, "damaged_files", "C16")}}
